@@ -617,6 +617,25 @@ void doLink(Ctx &c, Session &s, const json &g, bool add) {
     else throw std::runtime_error("harness: unknown link slot " + slot);
 }
 
+// vector setters: references(vector), sources(vector), group members(vector)
+void doSetLinks(Ctx &c, Session &s, const json &g, const json &q) {
+    long h = g["p"]; std::string slot = g["slot"];
+    Ent &he = handleOf(s, h);
+    std::vector<Ent> ts;
+    for (auto &x : q) { long t = x;
+        if (t == FOREIGN) { ensureForeign(c, s); ts.push_back(slot == "esources" ? mk(s.fsrc) : slot == "gframes" ? mk(s.ffr) : slot == "gtags" ? mk(s.ftag) : slot == "gmtags" ? mk(s.fmtag) : mk(s.fa)); }
+        else ts.push_back(handleOf(s, t)); }
+    auto arrays = [&] { std::vector<nix::DataArray> v; for (auto &e : ts) v.push_back(e.array); return v; };
+    auto sources = [&] { std::vector<nix::Source> v; for (auto &e : ts) v.push_back(e.source); return v; };
+    if (slot == "refs") { if (he.kind == "tag") he.tag.references(arrays()); else he.mtag.references(arrays()); }
+    else if (slot == "esources") { if (he.kind == "array") he.array.sources(sources()); else if (he.kind == "frame") he.frame.sources(sources()); else if (he.kind == "tag") he.tag.sources(sources()); else if (he.kind == "mtag") he.mtag.sources(sources()); else he.group.sources(sources()); }
+    else if (slot == "garrays") he.group.dataArrays(arrays());
+    else if (slot == "gframes") { std::vector<nix::DataFrame> v; for (auto &e : ts) v.push_back(e.frame); he.group.dataFrames(v); }
+    else if (slot == "gtags") { std::vector<nix::Tag> v; for (auto &e : ts) v.push_back(e.tag); he.group.tags(v); }
+    else if (slot == "gmtags") { std::vector<nix::MultiTag> v; for (auto &e : ts) v.push_back(e.mtag); he.group.multiTags(v); }
+    else throw std::runtime_error("harness: unknown link slot " + slot);
+}
+
 void doSetOne(Ctx &c, Session &s, const json &g, long variant) {
     long h = g["p"], t = g["t"]; std::string slot = g["slot"];
     Ent &he = handleOf(s, h);
@@ -695,6 +714,7 @@ std::string doStep(Ctx &c, Session &s, const json &st, long variant) {
     else if (a == "Delete" || a == "DeleteAbsent") r = outcome([&] { doDelete(s, g); }, &what);
     else if (a == "AddLink") r = outcome([&] { doLink(c, s, g, true); }, &what);
     else if (a == "RemoveLink") r = outcome([&] { doLink(c, s, g, false); }, &what);
+    else if (a == "SetLinks") r = outcome([&] { doSetLinks(c, s, g, st["out"]); }, &what);
     else if (a == "SetOne") r = outcome([&] { doSetOne(c, s, g, variant); }, &what);
     else if (a == "SetAttr") r = outcome([&] { applyAttr(handleOf(s, g["p"]), g["v"]); }, &what);
     else if (a == "SetType") r = outcome([&] { doSetType(s, g); }, &what);
